@@ -5,7 +5,7 @@ WT=/tmp/reftest
 [ -d $WT ] || git -C /repo worktree add -q --detach $WT HEAD
 git -C $WT checkout -q -- . ; git -C $WT checkout -q --detach main
 git -C $WT apply $P || { echo "APPLY-FAILED $P"; exit 9; }
-res=$(for i in $(seq -w 1 20); do echo C$i; done | xargs -P 10 -I{} sh -c 'AHRS_REPO='$WT' /verif/check {} --tier quick > /tmp/rf.{}.log 2>&1; echo "{}:$?"' | sort | tr '\n' ' ')
+res=$(for i in $(seq -w 1 20); do echo C$i; done | xargs -P 16 -I{} sh -c 'AHRS_REPO='$WT' /verif/check {} --tier quick > /tmp/rf.{}.log 2>&1; echo "{}:$?"' | sort | tr '\n' ' ')
 git -C $WT checkout -q -- .
 bad=$(echo $res | tr ' ' '\n' | grep -v ':0' | tr '\n' ' ')
 echo "$(basename $P): ${bad:-all silent}"
